@@ -41,7 +41,28 @@ func main() {
 	only := flag.String("only", "", "only report the obligation with this key (replay)")
 	list := flag.Bool("list", false, "list all obligations")
 	describe := flag.Bool("describe", false, "print the registered properties as JSON and exit")
+	dumpNames := flag.Bool("dump-names", false, "print the reference name table (names.json) of -repo and exit")
 	flag.Parse()
+	if *dumpNames {
+		m, err := loadModule(*repo, false, nil)
+		if err != nil {
+			fmt.Fprintln(os.Stderr, err)
+			os.Exit(2)
+		}
+		tab := m.currentNames()
+		for _, extra := range pluginModuleDirs {
+			if pm, err := loadModule(filepath.Join(*repo, extra), false, nil); err == nil {
+				for k, v := range pm.currentNames() {
+					if _, have := tab[k]; !have {
+						tab[k] = v
+					}
+				}
+			}
+		}
+		b, _ := json.MarshalIndent(tab, "", " ")
+		fmt.Println(string(b))
+		return
+	}
 	if *describe {
 		out := map[string]interface{}{}
 		for id, p := range props {
